@@ -53,10 +53,73 @@ def neutraliser(n, par):
             continue
         if isinstance(p, ast.Assign) and len(p.targets) == 1 and isinstance(p.targets[0], ast.Name) and membership_only(p.targets[0].id, p):
             return "membership-only-via-name"
+        if isinstance(p, ast.Assign) and len(p.targets) == 1 and isinstance(p.targets[0], ast.Name) and locally_neutralised(p.targets[0].id, p, par):
+            return "neutralised-at-every-use-via-local-name"
         if isinstance(p, (ast.Return, ast.Assign, ast.Expr, ast.keyword)):
             return "escapes-unsorted:" + type(p).__name__
         cur = p
     return "unknown"
+
+
+SAFE_DIRECT = ("sorted", "membership", "order-insensitive-len", "order-insensitive-any", "order-insensitive-all", "order-insensitive-bool",
+               "order-insensitive-min", "order-insensitive-max", "order-insensitive-sum")
+
+
+def locally_neutralised(name, assign, par):
+    """The container is bound exactly once, to the local `name` of the enclosing function, and every other occurrence of the
+    identifier in that function (nested functions included) is a read that is itself consumed order-insensitively: the iterable of a
+    comprehension directly inside sorted(...), an argument of sorted / len / any / ..., the right-hand side of `in`.  A parameter or
+    global of that name, a second binding, a read that escapes (returned, passed on, stored, looped over) makes this False."""
+    f = assign
+    while f in par and not isinstance(f, (ast.FunctionDef, ast.AsyncFunctionDef)):
+        f = par[f]
+    if not isinstance(f, (ast.FunctionDef, ast.AsyncFunctionDef)):
+        return False
+    a = f.args
+    if name in [x.arg for x in a.posonlyargs + a.args + a.kwonlyargs] or (a.vararg and a.vararg.arg == name) or (a.kwarg and a.kwarg.arg == name):
+        return False
+    reads = 0
+    for n in ast.walk(f):
+        if isinstance(n, (ast.Global, ast.Nonlocal)) and name in n.names:
+            return False
+        if isinstance(n, ast.arg) and n.arg == name and n is not None and par.get(n) is not f.args:
+            return False
+        if isinstance(n, ast.Name) and n.id == name:
+            if isinstance(n.ctx, ast.Store):
+                p = par.get(n)
+                if not (p is assign):
+                    return False
+                continue
+            if isinstance(n.ctx, ast.Del):
+                return False
+            reads += 1
+            if neutraliser_direct(n, par) not in SAFE_DIRECT:
+                return False
+    return reads > 0
+
+
+def neutraliser_direct(n, par):
+    """neutraliser() without the via-name rules (no recursion): how this very expression is consumed"""
+    cur = n
+    while cur in par:
+        p = par[cur]
+        if isinstance(p, ast.Call) and isinstance(p.func, ast.Name) and p.func.id == "sorted" and cur in p.args:
+            return "sorted"
+        if isinstance(p, ast.Call) and isinstance(p.func, ast.Name) and p.func.id in ("len", "any", "all", "bool", "min", "max", "sum") and cur in p.args:
+            return "order-insensitive-" + p.func.id
+        if isinstance(p, ast.Compare) and any(isinstance(o, (ast.In, ast.NotIn)) for o in p.ops) and cur in p.comparators:
+            return "membership"
+        if isinstance(p, ast.comprehension) and p.iter is cur:
+            cur = p
+            continue
+        if isinstance(p, (ast.ListComp, ast.GeneratorExp, ast.SetComp)) and cur in p.generators and len(p.generators) == 1:
+            cur = p
+            continue
+        if isinstance(p, ast.Call) and isinstance(p.func, ast.Name) and p.func.id in ("list", "tuple") and cur in p.args:
+            cur = p
+            continue
+        return "escapes"
+    return "escapes"
 
 
 _TREES = {}
